@@ -3,6 +3,11 @@ minimised past disagreements."""
 
 CORPUS = {
     "C07": [
+        # a reader that holds its guard while waiting for another reader (pending at read() when the first acquires):
+        # readers coexist, no deadlock; also after a completed write section
+        "cfg l=1 | T0: spawn 1; rd 0; join 1; unrd 0 | T1: rd 0; unrd 0",
+        "cfg l=1 c=1 x=1 | T0: spawn 1; spawn 2; join 1; join 2 | T1: wr 0; cwr 0 1; unwr 0; rd 0; await 0 1 acq; crd 0; unrd 0 | T2: rd 0; crd 0; unrd 0; st 0 1 rel",
+        "cfg l=1 x=1 | T0: spawn 1; rd 0; fadd 0 1 rlx; join 1; unrd 0 | T1: fadd 0 1 rlx; rd 0; unrd 0",
         # a thread about to try must not be blocked by the acquisition (F9a, repaired)
         "cfg m=1 | T0: spawn 1; lock 0; join 1; unlock 0 | T1: trylock 0; ifeq 1 v:1 1; unlock 0",
         "cfg l=1 | T0: spawn 1; wr 0; join 1; unwr 0 | T1: tryrd 0; ifeq 1 v:1 1; unrd 0",
@@ -109,6 +114,20 @@ CORPUS = {
         "cfg x=2 | T0: spawn 1; st 0 1 rlx; st 1 1 rlx; join 1; fence sc | T1: fence sc; ld 1 rlx; ld 0 rlx",
     ],
     "C08": [
+        # three waits on one Notify, each notification sent only after the previous wait has returned: at most one of
+        # the returns may be spurious in any execution
+        "cfg n=1 x=3 | T0: spawn 1; nwait 0; st 1 1 rlx; nwait 0; st 2 1 rlx; nwait 0; join 1 | T1: nnotify 0; await 1 1 rlx; nnotify 0; await 2 1 rlx; nnotify 0",
+        "cfg n=1 x=3 | T0: spawn 1; nnotify 0; await 1 1 rlx; nnotify 0; await 2 1 rlx; nnotify 0; join 1 | T1: nwait 0; st 1 1 rlx; nwait 0; st 2 1 rlx; nwait 0",
+        # a thread parks right after using a lock; another thread releases the same lock while it is parked: the park must
+        # still wait for the unpark (what the unparker wrote before is visible afterwards)
+        "cfg m=1 c=1 | T0: spawn 1; lock 0; unlock 0; cwr 0 5; unpark 1; join 1 | T1: lock 0; unlock 0; park; crd 0",
+        "cfg l=1 c=1 | T0: spawn 1; wr 0; unwr 0; cwr 0 5; unpark 1; join 1 | T1: rd 0; unrd 0; park; crd 0",
+        "cfg l=1 c=1 | T0: spawn 1; rd 0; unrd 0; cwr 0 5; unpark 1; join 1 | T1: wr 0; unwr 0; park; crd 0",
+        "cfg m=1 x=1 | T0: spawn 1; lock 0; unlock 0; st 0 1 rlx; unpark 1; join 1 | T1: lock 0; unlock 0; park; ld 0 rlx",
+        # two rounds of park/unpark: the first park really blocks; the second unpark arrives while the target runs (the
+        # tickets on x1 make that order an explored one); the token must be kept for the second park
+        "cfg x=2 | T0: spawn 1; park; st 0 1 rlx; fadd 1 1 rlx; park; join 1 | T1: unpark 0; await 0 1 rlx; fadd 1 1 rlx; unpark 0",
+        "cfg x=2 | T0: spawn 1; spawn 2; join 1; join 2 | T1: park; st 0 1 rlx; fadd 1 1 rlx; park | T2: unpark 1; await 0 1 rlx; fadd 1 1 rlx; unpark 1",
         # two early unparks from two threads, both stored before the park: the park must receive what BOTH published
         "cfg c=2 x=1 | T0: spawn 1; spawn 2; ld 0 rlx; ifeq 1 v:2 3; park; crd 0; crd 1; join 1; join 2 | T1: cwr 0 1; unpark 0; fadd 0 1 rlx | T2: cwr 1 1; unpark 0; fadd 0 1 rlx",
         "cfg c=2 x=1 | T0: spawn 1; ld 0 rlx; ifeq 1 v:2 3; park; crd 0; crd 1; join 1 | T1: cwr 0 1; unpark 0; fadd 0 1 rlx; cwr 1 1; unpark 0; fadd 0 1 rlx",
@@ -145,6 +164,10 @@ CORPUS = {
         "cfg m=1 c=1 v=1 | T0: spawn 1; spawn 2; lock 0; cwr 0 1; unlock 0; cvone 0; cvone 0; join 1; join 2 | T1: lock 0; crd 0; ifeq 1 v:0 1; cvwait 0 0; unlock 0 | T2: lock 0; crd 0; ifeq 1 v:0 1; cvwait 0 0; unlock 0",
     ],
     "C05": [
+        # two rounds of park/unpark: the first park really blocks; the second unpark arrives while the target runs (the
+        # tickets on x1 make that order an explored one); the token must be kept for the second park
+        "cfg x=2 | T0: spawn 1; park; st 0 1 rlx; fadd 1 1 rlx; park; join 1 | T1: unpark 0; await 0 1 rlx; fadd 1 1 rlx; unpark 0",
+        "cfg x=2 | T0: spawn 1; spawn 2; join 1; join 2 | T1: park; st 0 1 rlx; fadd 1 1 rlx; park | T2: unpark 1; await 0 1 rlx; fadd 1 1 rlx; unpark 1",
         "cfg m=1 | T0: spawn 1; lock 0; join 1; unlock 0 | T1: trylock 0; ifeq 1 v:1 1; unlock 0",
         "cfg c=1 | T0: spawn 1; cwr 0 1; unpark 1; park; join 1 | T1: cwr 0 2",
         # unpark must wake only a thread that is blocked in park, and its token must survive blocking on
